@@ -160,6 +160,16 @@ func Root() string {
 	return "/verif"
 }
 
+// OutRoot is where evidence and replay files go: Root(), unless VERIF_OUT
+// redirects them (trials of seeded changes against a scratch copy of the
+// repository must not overwrite the evidence of the real tree).
+func OutRoot() string {
+	if r := os.Getenv("VERIF_OUT"); r != "" {
+		return r
+	}
+	return Root()
+}
+
 func RepoRoot() string {
 	if r := os.Getenv("VERIF_REPO"); r != "" {
 		return r
@@ -232,7 +242,7 @@ func (v *Violation) Error() string {
 
 // WriteReplay stores the violation under /verif/replays and returns the path.
 func WriteReplay(v *Violation) (string, error) {
-	dir := filepath.Join(Root(), "replays")
+	dir := filepath.Join(OutRoot(), "replays")
 	if err := os.MkdirAll(dir, 0o755); err != nil {
 		return "", err
 	}
@@ -271,7 +281,7 @@ type Evidence struct {
 }
 
 func (e *Evidence) Write() error {
-	dir := filepath.Join(Root(), "evidence")
+	dir := filepath.Join(OutRoot(), "evidence")
 	if err := os.MkdirAll(dir, 0o755); err != nil {
 		return err
 	}
